@@ -16,7 +16,7 @@ open LccModel.Loader
 
 def count (b : Bool) : Nat := if b then 1 else 0
 
-/-- The expression `md.condition and not md.condition(obj)` and its reader `not …`, as modelled
+/-- The expression `md.condition is not None and not md.condition(obj)` and its reader `not …`, as modelled
     (`Vis.hiddenAttr`, `Vis.shown`), against `_load_test` / `_load_tests` on a test *function*. -/
 theorem testFunction_expression_agrees :
     ∀ r ∈ testFunctionCondTable, (r.1.hiddenAttr.truthy, count r.1.shown) = r.2 := by decide +kernel
